@@ -109,18 +109,12 @@ def devs (op : String) (how : String) (r0 : Recv) (rm : Recv) (args : List Val) 
     ("index_noncanonical", op == "index" && decide (stringToArrayIndex (toStr env a0) ≥ 0)
         && (Spec.canonIndex (toStr env a0)).isNone),
     ("rune_offsets", (op == "slice" || op == "substring" || op == "substr") && hasAstral value),
-    ("substr_overflow_panic", op == "substr" &&
-        (let size : Int := (decodeRunes value).length
-         let sl := rangeStartLength env args size
-         decide (sl.1 < size ∧ sl.2 > 0 ∧ sl.1 + sl.2 ≥ 2^63))),
     ("indexOf_byte_offset", op == "indexOf" && decide (args.length ≥ 2) &&
         (let p : Nat := match toIntegerE env a1 with
            | .ninf => 0 | .pinf => value.length | .fin i => if i < 0 then 0 else i.toNat
          !isASCII (value.take p))),
     ("lastIndexOf_nan", op == "lastIndexOf" && hasPos && isNaN (toFloat env.c5 a1)),
     ("lastIndexOf_neginf", op == "lastIndexOf" && hasPos && toFloat env.c5 a1 == .inf true),
-    ("lastIndexOf_overflow_panic", op == "lastIndexOf" && hasPos && decide (value.length > 0)
-        && !n1.isInf && decide (n1.i + tlen ≥ 2^63)),
     ("lastIndexOf_byte_offset", op == "lastIndexOf" && hasPos && !n1.isInf &&
         (let s0 := if n1.i < 0 then 0 else n1.i
          !isASCII (value.take (s0 + tlen).toNat))),
@@ -128,8 +122,7 @@ def devs (op : String) (how : String) (r0 : Recv) (rm : Recv) (args : List Val) 
     ("case_special", (op == "toLowerCase" && (U value).any (fun u => !isSurr u && Spec.lowerUnit u != [goLower u]))
         || (op == "toUpperCase" && (U value).any (fun u => !isSurr u && Spec.upperUnit u != [goUpper u]))),
     ("case_astral", (op == "toLowerCase" && (decodeRunes value).any (fun c => decide (c ≥ 0x10000) && goLower c != c))
-        || (op == "toUpperCase" && (decodeRunes value).any (fun c => decide (c ≥ 0x10000) && goUpper c != c))),
-    ("toUint_big", (op == "split" && isNumArg a1 && bigInt a1) || (op == "fromCharCode" && args.any bigInt))
+        || (op == "toUpperCase" && (decodeRunes value).any (fun c => decide (c ≥ 0x10000) && goUpper c != c)))
   ]
   (d.filter (·.2)).map (·.1)
 
